@@ -6,13 +6,14 @@
 (* data path.  Every drop pattern is emitted as a scenario for the real loop.                                    *)
 EXTENDS TcpLoop, Json
 CONSTANTS NSegs, DropIdx, MaxDD, MaxAD, QMax, Win,
+          Fifos,       \* {1}: FIFO paths; {0}: paths that may reorder; {0, 1}: both
           Timelies     \* {0}: timers fire whenever pending; {1}: RTT < RTO (a timer expires only when the copy it
                        \* was started for, or the answer to it, was lost); {0, 1}: both
 vars == lvars
 
-Init == \E n \in NSegs, dd \in SUBSET DropIdx, ad \in SUBSET DropIdx, tm \in Timelies :
+Init == \E n \in NSegs, dd \in SUBSET DropIdx, ad \in SUBSET DropIdx, tm \in Timelies, ff \in Fifos :
           /\ Cardinality(dd) <= MaxDD /\ Cardinality(ad) <= MaxAD
-          /\ InitWith([n |-> n, dd |-> dd, ad |-> ad, timely |-> tm])
+          /\ InitWith([n |-> n, dd |-> dd, ad |-> ad, timely |-> tm, fifo |-> ff])
 
 MaxSeg == MaxOf(NSegs) - 1
 EnvSend == nxt - una < Win /\ SendNew
@@ -33,7 +34,7 @@ SetToSeq(S) == LET RECURSIVE f(_)
                                                  IN <<x>> \o f(T \ {x})
                IN f(S)
 Emit == (txn = 0 /\ nxt = 0) =>
-          PrintT(<<"EMIT", ToJson([n |-> cfg.n, dd |-> SetToSeq(cfg.dd), ad |-> SetToSeq(cfg.ad), timely |-> cfg.timely])>>)
+          PrintT(<<"EMIT", ToJson([n |-> cfg.n, dd |-> SetToSeq(cfg.dd), ad |-> SetToSeq(cfg.ad), timely |-> cfg.timely, fifo |-> cfg.fifo])>>)
 
 (* ---- the clauses ---- *)
 \* all data gets through
